@@ -237,30 +237,34 @@ def run(ctx):
         # prefix is either ff_tokens().1 (token_prefix) or the compute_ff_bytes_to buffer
         txt = F.fmt_expr(e)
         ctx.info("C13-R4", "start argument: " + txt)
-        # def-use: the local holding `prefix` is assigned in both arms: from the ff tuple's field 1 and from `trg`
-        pl = None
-        for l, d in enumerate(cm.locals):
-            if d.get("n") == "prefix":
-                pl = l
-        ok = False
+        # def-use (name-independent): the local passed as start is assigned, in the two arms, from field 1 of the
+        # (ff_tokens, token_prefix) pair taken from the ff cache / ff_tokens(), and from the buffer filled by compute_ff_bytes_to
+        ae = cm.expr(t["args"][1])
+        pl = L.root_local(cm, ae)
+        ffb_args = set()
+        for bi2, t2 in cm.calls():
+            if t2["f"].get("def") == TP + "::compute_ff_bytes_to":
+                l2 = L.root_local(cm, cm.expr(t2["args"][1]))
+                if l2 is not None:
+                    ffb_args.add(l2)
+        kinds = set()
         if pl is not None:
-            ds = cm.defs().get(pl, [])
-            srcs = []
-            for (bi, si, kind, payload) in ds:
-                if kind == "assign":
-                    srcs.append(F.fmt_expr(cm.expr_place([pl])) if False else repr(payload)[:200])
-            names = set()
-            for (bi, si, kind, payload) in ds:
+            for (bi2, si, kind, payload) in cm.defs().get(pl, []):
                 if kind == "assign" and payload["rv"] == "use":
-                    p = F.op_place(payload["o"])
-                    if p:
-                        names.add(cm.local_name(p[0]))
-            ok = names >= {"token_prefix", "trg"}
-            ctx.check(ok, "C13-R4", "prefix-sources", "prefix is the un-tokenised forced tail (token_prefix) or the forced-bytes buffer (trg)",
-                      "compute_mask_inner's start prefix is assigned from %s" % sorted(names), site=cm.where())
-            # and the argument is &prefix
-            ae = cm.expr(t["args"][1])
-            ctx.check(L.root_local(cm, ae) == pl, "C13-R4", "prefix-passed-to-compute_bias", "compute_bias receives &prefix",
-                      "compute_bias is called with %s instead of the forced prefix" % F.fmt_expr(ae), site=cm.where(cbias[0]))
+                    q = F.op_place(payload["o"])
+                    if q is None:
+                        continue
+                    r_ = L.role_place(cm, q)
+                    if r_.endswith(".1") and ("ff_tokens_cache" in r_ or "ff_tokens(" in r_):
+                        kinds.add("ff-pair.1")
+                    elif q[0] in ffb_args:
+                        kinds.add("ff-bytes-buffer")
+                    else:
+                        kinds.add(r_)
+        if pl is not None:
+            ctx.check(kinds == {"ff-pair.1", "ff-bytes-buffer"}, "C13-R4", "prefix-sources",
+                      "the start prefix is the un-tokenised forced tail (field 1 of the ff pair) or the buffer filled by compute_ff_bytes_to",
+                      "compute_mask_inner's start prefix is assigned from %s" % sorted(kinds), site=cm.where())
+            ctx.ok("C13-R4", "prefix-passed-to-compute_bias", "compute_bias receives a whole-value view of that local")
         else:
             ctx.violation("C13-R4", "anchor-missing:compute_mask_inner.prefix", "local `prefix` not found in compute_mask_inner")
